@@ -443,8 +443,9 @@ chains_of_day(const struct rc_day *p)
 	for (int c = 0; c < NCAL; c++) {
 		struct dt_dt_s v;
 		int ix[MAXCHAIN];
-		if (cal_value(c, p, &v) <= 0) {
-			continue;	/* parse failures are reported by the single steps */
+		if (c == C_BIZDAB || cal_value(c, p, &v) <= 0) {
+			/* parse failures are reported by the single steps; the before-ultimo spelling is judged on the single steps */
+			continue;
 		}
 		for (ix[0] = 0; ix[0] < NLET; ix[0]++) {
 			for (ix[1] = 0; ix[1] < NLET; ix[1]++) {
